@@ -73,6 +73,7 @@ func checkC10(r *Report, p *Program) {
 	createTable(r, p, "R10.12")
 	rmwOperands(r, p, "R10.13")
 	hookWiring(r, p, "R10.14")
+	smallVerbClauses(r, p, "R10.15")
 	// a failed finalizer add/remove is an error of SyncObject, never a silent continue without the finalizer (R12.1 on the finalizer code)
 	errorRule(r, p, "R10.9", 2, func(f *ssa.Function) bool {
 		return strings.HasSuffix(p.File(f), "common/finalizer/finalizer.go")
